@@ -1371,6 +1371,8 @@ class ModelBuilder:
         self, obj: Union[Task, Resource, Any], attributes: list[Any], prop_type: str
     ) -> None:
         """Apply attributes to a property object."""
+        # attribute -> {scenario index: value} given with a scenario prefix ('delayed:effort 40d')
+        scenario_overrides: dict[str, dict[int, Any]] = {}
         for attr in attributes:
             if attr is None:
                 continue
@@ -1440,7 +1442,7 @@ class ModelBuilder:
                     scenario_idx = self._get_scenario_index(obj.project, scenario_id)
                     if scenario_idx is not None and attr_data and isinstance(attr_data, tuple):
                         attr_key, attr_value = attr_data
-                        obj[(attr_key, scenario_idx)] = attr_value
+                        scenario_overrides.setdefault(attr_key, {})[scenario_idx] = attr_value
                 elif key == "journalentry":
                     # Create a journal entry for this task
                     self._create_journal_entry(obj, value)  # type: ignore[arg-type]
@@ -1608,6 +1610,22 @@ class ModelBuilder:
                 else:
                     with contextlib.suppress(ValueError, KeyError, AttributeError):
                         obj[key] = value
+
+        # Scenario-specific values win over the plain attribute wherever it appears in the
+        # body, and a nested scenario inherits them from its parent scenario unless it has a
+        # value of its own (scenarios are stored parents-first)
+        for attr_key, explicit in scenario_overrides.items():
+            effective: dict[int, Any] = {}
+            scenarios = list(obj.project.scenarios)
+            for idx, scenario in enumerate(scenarios):
+                if idx in explicit:
+                    effective[idx] = explicit[idx]
+                elif scenario.parent is not None and scenario.parent in scenarios:
+                    parent_idx = scenarios.index(scenario.parent)
+                    if parent_idx in effective:
+                        effective[idx] = effective[parent_idx]
+            for idx, attr_value in effective.items():
+                obj[(attr_key, idx)] = attr_value
 
     def _get_scenario_index(self, project: Project, scenario_id: str) -> Optional[int]:
         """Get the index of a scenario by its ID."""
